@@ -24,7 +24,7 @@ NAMES = ["a", "b", "c", "Ωμ", "x y", "a/b", "d.e", "", "名前", "a"]
 PG_NAMES = ["pg1", "pg2", "pg3"]
 
 MUTATORS = ["create_uid", "remove_many", "group", "object", "data", "values", "rename", "flag", "move", "copy", "remove", "pg_add",
-            "pg_remove_props", "pg_delete", "metadata", "file", "comment", "visual", "dhlog"]
+            "pg_remove_props", "pg_delete", "metadata", "file", "comment", "visual", "dhlog", "type_clash"]
 CONTROL = ["reopen", "gc", "hold", "release", "observe"]
 
 
@@ -104,6 +104,8 @@ def op_strategy(kind: str, cfg: dict):
                                       "ws": st.sampled_from([0, 0, 1]), "twice": st.sampled_from([False, False, True]),
                                       "again_after_remove": st.sampled_from([False, False, True]),
                                       "again_after_pg_delete": st.sampled_from([False, True])})
+    if kind == "type_clash":
+        return st.fixed_dictionaries({"op": st.just("type_clash"), "who": idx, "geom": geom_strategy()})
     if kind == "dhlog":
         return st.fixed_dictionaries({"op": st.just("dhlog"), "obj": idx, "name": name,
                                       "depths": st.lists(st.integers(0, 12), min_size=1, max_size=4, unique=True),
@@ -159,7 +161,7 @@ DEFAULT_CFG = {
     "data_kinds": ["float", "int", "bool", "ref", "text"],
     "weights": {"group": 3, "object": 5, "data": 6, "values": 3, "rename": 2, "flag": 2, "move": 4, "copy": 4,
                 "remove": 4, "pg_add": 4, "pg_remove_props": 2, "pg_delete": 1, "metadata": 1, "file": 1,
-                "comment": 1, "visual": 1, "dhlog": 1, "create_uid": 1, "remove_many": 1, "reopen": 3, "gc": 2, "hold": 1, "release": 1, "observe": 1},
+                "comment": 1, "visual": 1, "dhlog": 1, "type_clash": 0, "create_uid": 1, "remove_many": 1, "reopen": 3, "gc": 2, "hold": 1, "release": 1, "observe": 1},
     "ws2": True,
     "prefix": [],
     "prefixes": [],
@@ -813,6 +815,17 @@ class TreeRun:
         for cls, uids in per_class.items():
             if len(uids) > 1:
                 self.fail("C06", "class-with-several-types", opkind, cls, "", f"entities of class {cls} use types {sorted(uids)}")
+        # ... and it is one type OBJECT (two live types with one identifier are two types sharing an identifier)
+        type_objects: dict = {}
+        for uid, node in wd.nodes.items():
+            if wd.kind[uid] in ("group", "object") and node["cls"] != "CustomGroup":
+                ent = wd.ws.get_entity(uuid.UUID(uid))[0]
+                if ent is not None:
+                    type_objects.setdefault(node["cls"], set()).add(id(ent.entity_type))
+        for cls, ids in type_objects.items():
+            if len(ids) > 1:
+                self.fail("C06", "type-uid-shared", opkind, cls, "two-live-type-objects",
+                          f"the live entities of class {cls} hold {len(ids)} different type objects")
                 return
 
     def op_object(self, op):
@@ -1066,6 +1079,43 @@ class TreeRun:
             wd.adopt(cuid, node, "data")
         self.touch()
         del ent, comments
+        return True
+
+    def op_type_clash(self, op):
+        """An explicit request to create a type under the identifier of a live type of another kind must be refused
+        without side effects; an entity of the class created afterwards still shares the class's single type."""
+        from geoh5py.data import DataType
+
+        wd = self.w
+        objs = [o for o in wd.of_kind("object") if wd.nodes[o]["cls"] in F.CORE_OBJECT_CLASSES and wd.nodes[o]["cls"] != "Drillhole"]
+        uid = self.pick(objs, op["who"])
+        if uid is None:
+            return False
+        ent = wd.entity(uid)
+        cls_name = wd.nodes[uid]["cls"]
+        try:
+            DataType(wd.ws, uid=ent.entity_type.uid, primitive_type="FLOAT", name="clash")
+            accepted = True
+        except Exception:
+            accepted = False
+        if accepted:
+            self.fail("C06", "type-uid-reused", "type_clash", cls_name, "", f"a data type was created under the identifier of the live {cls_name} type")
+            return True
+        self.res.label("type_clash:refused")
+        parent_uid = wd.nodes[uid]["parent"]
+        parent = wd.entity(parent_uid)
+        self.parents.add(parent_uid)
+        new = self.call(cls_name, F.get_class(cls_name).create, wd.ws, parent=parent, name="after clash",
+                        **F.object_kwargs(cls_name, op["geom"]))
+        node = snap_entity(new)
+        self.check_created(wd, str(new.uid), node, cls_name, parent_uid, "after clash", "object")
+        wd.adopt(str(new.uid), node, "object")
+        for child in getattr(new, "children", []):
+            if hasattr(child, "entity_type") and str(child.uid) not in wd.nodes:
+                wd.adopt(str(child.uid), snap_entity(child), "data")
+        self.touch()
+        del new, parent, ent
+        self.check_uid_invariants(wd, "type_clash")
         return True
 
     def op_dhlog(self, op):
